@@ -111,6 +111,10 @@ def explore(run: Callable[[Ctx], object], depth: int | None = None, deviations: 
         if max_exec is not None and n >= max_exec:
             capped = True
             break
+        from . import kernel as _k
+        if _k.BUSY_HITS >= 2:
+            capped = True     # the code under test spins: the executions seen so far carry the violation, do not burn hours
+            break
         ctx = Ctx(prefix)
         res = run(ctx)
         n += 1
